@@ -27,6 +27,7 @@ import (
 	"fmt"
 	"os"
 	"strings"
+	"sync"
 	"time"
 
 	"verif/h/fw"
@@ -87,7 +88,33 @@ func enabledFor(listLen int, op string) bool {
 	return true
 }
 
+// current history, for the watchdog message
+var (
+	curMu   sync.Mutex
+	curHist []string
+)
+
+func setCurrent(h []string) { curMu.Lock(); curHist = h; curMu.Unlock() }
+
+// run executes the search in a goroutine; should an operation of the code under test not
+// return (e.g. an endless predecessor walk over a cyclic chain) the worker reports a cap
+// instead of hanging the whole check.  The grace period only starts after the time cap,
+// when the search loop would stop by itself before the next transition.
 func run(c *fw.Ctx) {
+	done := make(chan struct{})
+	go func() { defer close(done); search(c) }()
+	grace := time.Until(c.Deadline) + 45*time.Second
+	select {
+	case <-done:
+	case <-time.After(grace):
+		curMu.Lock()
+		h := strings.Join(curHist, ",")
+		curMu.Unlock()
+		c.Cap("history [" + h + "] did not return within 45 s after the time cap (non-termination in the code under test?); rest of this worker's share not explored")
+	}
+}
+
+func search(c *fw.Ctx) {
 	boot()
 	depth := depthOf(c)
 	designated := c.Mine(0) // exactly one worker accounts for the shared levels
@@ -123,6 +150,7 @@ func run(c *fw.Ctx) {
 				}
 				hb := append(append(make([]byte, 0, len(n.hist)+1), n.hist...), byte(oi))
 				hist := names(hb)
+				setCurrent(hist)
 				r := runHistory(hist, len(hist))
 				if r.ResetErr != nil {
 					infra("%v", r.ResetErr)
@@ -171,6 +199,11 @@ func run(c *fw.Ctx) {
 						poisoned = true
 						break nodes
 					}
+					continue
+				}
+				if last.Forbidden != "" {
+					// no list can satisfy the statement any more (the chain now contains a fork
+					// or a cycle); reported above, not expanded further
 					continue
 				}
 				if _, ok := visited[r.Key]; ok {
